@@ -31,6 +31,7 @@ inductive Rule
   | concat               -- result.X = make([]string,0,…); append a.X…; append b.X…
   | tagsFresh            -- if a.X != nil || b.X != nil { result.X = make(map…); maps.Copy(result.X, a.X); maps.Copy(result.X, b.X) }
   | tagsInPlace          -- if b.X != nil { if result.X == nil { result.X = make(map…) }; maps.Copy(result.X, b.X) }   (pre-repair)
+  | appendInPlace        -- result.X = append(a.X, b.X...)      (grows a's slice: writes a's backing array when it has spare capacity)
   | none                 -- no statement: result.X = a.X
   deriving DecidableEq, Repr, Inhabited
 
@@ -98,6 +99,7 @@ def mergeVal : Rule → FieldVal → FieldVal → FieldVal
   | .concat, .list x, .list y => .list (x ++ y)
   | .tagsFresh, .tags x, .tags y => .tags (mergeTags x y)
   | .tagsInPlace, .tags x, .tags y => .tags (mergeTagsInPlace x y)
+  | .appendInPlace, .list x, .list y => .list (x ++ y)
   | _, a, _ => a
 
 /-- `MergeConfig(a, b)`, value view, for a rule table. -/
@@ -112,6 +114,12 @@ def WT (t : List FieldSpec) (c : Config) : Prop := ∀ fs ∈ t, hasKind fs.kind
 
 instance (t : List FieldSpec) (c : Config) : Decidable (WT t c) := by unfold WT; infer_instance
 
+/-- rules whose statement writes through a reference held by an input -/
+def writesInput : Rule → Bool
+  | .tagsInPlace => true
+  | .appendInPlace => true
+  | _ => false
+
 /-- Which rule may be applied to which kind (Go's type checker guarantees this for the source). -/
 def compat : Rule → Kind → Bool
   | .overrideIfNonEmpty, .str => true
@@ -124,6 +132,7 @@ def compat : Rule → Kind → Bool
   | .concat, .list => true
   | .tagsFresh, .tags => true
   | .tagsInPlace, .tags => true
+  | .appendInPlace, .list => true
   | .none, _ => true
   | _, _ => false
 
@@ -317,6 +326,13 @@ def mergeFieldH (h : Heap) (r : Rule) (a b : RVal) : Heap × RVal :=
         (hwrite h1 n (.tags (copyInto (readTags h1 (some n)) (readTags h1 rb))), .ref (some n))
       | some i =>                                          -- result.Tags IS a.Tags
         (hwrite h i (.tags (copyInto (readTags h (some i)) (readTags h rb))), .ref (some i))
+  | .appendInPlace, .ref ra, .ref rb =>
+    -- append(a.X, b.X...): slice capacities are not tracked; the case that matters is modelled — a's
+    -- backing array has room (cap > len, any slice grown by append), so b's entries are written into
+    -- a's object and the result shares it.  (a.X == nil: append allocates.)
+    match ra with
+    | none => (h ++ [.strs (readStrs h rb)], .ref (some h.length))
+    | some i => (hwrite h i (.strs (readStrs h (some i) ++ readStrs h rb)), .ref (some i))
   | .concat, .ref ra, .ref rb =>
     let n := h.length                                      -- make([]string, 0, …): fresh backing array
     let h1 := h ++ [.strs []]
